@@ -31,7 +31,7 @@ def run(ctx):
                 "and at two other levels per step, step 1e-5 h; Newton tolerances tightened to 1e-10; variants with forced "
                 "sub-increments.  one case = one tube history; all non-trivial")
     ctx.trusted += ["scikit-fem, NEML constitutive updates and tangents (run, not modelled)",
-                    "difference quotients with step 1e-5*h compared at 2e-3 relative accuracy",
+                    "difference quotients with step 1e-5*h compared at 2e-3 relative accuracy (central, or between the one-sided quotients where the force has a kink)",
                     "translator harness/translators/axialstiff.py"]
     translators.import_all()
     ctx.gen("AxialStiff", translators.REGISTRY["AxialStiff"])
@@ -113,6 +113,7 @@ def run(ctx):
             for li, d in enumerate(c["levels"][str(s)]):
                 (fm, _), (f0, k0), (fp, _) = [[uv(x) for x in t] for t in tr[3 * li: 3 * li + 3]]
                 fd = (fp - fm) / (2 * c["eps"])
+                fwd, bwd = (fp - f0) / c["eps"], (f0 - fm) / c["eps"]
                 if li == 0:
                     K = uv(r["stiffness"][s])
                     if K != k0 or uv(r["force"][s]) != f0:
@@ -122,7 +123,9 @@ def run(ctx):
                 msg = None
                 if not K > 0.0:
                     msg = "step %d, d=%.6g: reported stiffness %.6g is not positive (difference quotient %.6g)" % (s, d, K, fd)
-                elif abs(K - fd) > 2e-3 * abs(fd):
+                elif abs(K - fd) > 2e-3 * abs(fd) and not (min(fwd, bwd) * (1 - 2e-3) <= K <= max(fwd, bwd) * (1 + 2e-3)):
+                    # (at the onset of yielding the force has a kink inside [d - eps, d + eps]: the one-sided quotients differ
+                    #  and the tangent of the converged state lies between them; that is not a disagreement)
                     msg = "step %d, d=%.6g: reported stiffness %.8g, difference quotient of the force %.8g (%.2g relative)" % (s, d, K, fd, abs(K - fd) / abs(fd))
                 if msg:
                     msg = "%s %dD%s: %s" % (label, c["dim"], " forced sub-increments" if c.get("substep") else "", msg)
